@@ -16,23 +16,80 @@ package c03
 
 import (
 	"context"
+	"errors"
 	"fmt"
 	"math/rand"
 	"net"
 	"net/http"
 	"strings"
 	"sync"
+	"sync/atomic"
 	"time"
 
+	"github.com/sirupsen/logrus"
 	"github.com/spf13/viper"
+	"golang.org/x/time/rate"
 
 	"github.com/atlassian/gostatsd"
 	"github.com/atlassian/gostatsd/pb"
+	"github.com/atlassian/gostatsd/pkg/cachedinstances/cloudprovider"
 	"github.com/atlassian/gostatsd/pkg/statsd"
 
 	"verif/mon"
 	"verif/netx"
 )
+
+// srvConn is the scripted socket of the server variant: every datagram has a sender of its own.
+type srvPkt struct {
+	msg  []byte
+	addr net.Addr
+}
+
+type srvConn struct {
+	ch     chan srvPkt
+	closed chan struct{}
+	once   sync.Once
+}
+
+func (c *srvConn) ReadFrom(b []byte) (int, net.Addr, error) {
+	select {
+	case p := <-c.ch:
+		return copy(b, p.msg), p.addr, nil
+	case <-c.closed:
+		return 0, nil, errors.New("use of closed network connection")
+	}
+}
+func (c *srvConn) WriteTo(b []byte, addr net.Addr) (int, error) { return len(b), nil }
+func (c *srvConn) Close() error                                 { c.once.Do(func() { close(c.closed) }); return nil }
+func (c *srvConn) LocalAddr() net.Addr                          { return fakeAddr }
+func (c *srvConn) SetDeadline(t time.Time) error                { return nil }
+func (c *srvConn) SetReadDeadline(t time.Time) error            { return nil }
+func (c *srvConn) SetWriteDeadline(t time.Time) error           { return nil }
+
+// scriptedCloud is the cloud provider under the real CachedCloudProvider: it always answers, after a varying delay.
+type scriptedCloud struct {
+	batch int
+	calls atomic.Int64
+}
+
+func (p *scriptedCloud) Name() string           { return "scripted" }
+func (p *scriptedCloud) MaxInstancesBatch() int { return p.batch }
+func (p *scriptedCloud) EstimatedTags() int     { return 2 }
+func (p *scriptedCloud) Instance(ctx context.Context, ips ...gostatsd.Source) (map[gostatsd.Source]*gostatsd.Instance, error) {
+	n := p.calls.Add(1)
+	if n%5 == 0 {
+		time.Sleep(time.Duration(n%7) * 100 * time.Microsecond) // varying latency, not a synchronisation
+	}
+	out := make(map[gostatsd.Source]*gostatsd.Instance, len(ips))
+	for _, ip := range ips {
+		if len(ip)%5 == 0 {
+			out[ip] = nil // not found: negative cache entry
+			continue
+		}
+		out[ip] = &gostatsd.Instance{ID: "i-" + ip, Tags: gostatsd.Tags{"region:r1", "az:" + string(ip[len(ip)-1:])}}
+	}
+	return out, nil
+}
 
 const serverWatchdog = watchdog / 4
 
@@ -114,6 +171,7 @@ type srvConfig struct {
 	MaxEvents int    `json:"max_concurrent_events"`
 	Backends  int    `json:"backends"`
 	Namespace string `json:"namespace"`
+	Cloud     bool   `json:"cloud"` // the real CachedCloudProvider in front of the pipeline, many senders
 	Config    string `json:"config"`
 }
 
@@ -203,7 +261,22 @@ func runServerScript(r *mon.Run, sc *srvConfig, steps []srvStep, second bool) (s
 		Namespace: sc.Namespace, InternalNamespace: "statsd", EstimatedTags: 2, StatserType: gostatsd.StatserInternal, PercentThreshold: []float64{90},
 		ReceiveBatchSize: 1, ServerMode: "standalone", DisableInternalEvents: true, Viper: v,
 	}
-	conn := &fakeConn{ch: make(chan []byte), closed: make(chan struct{})}
+	if sc.Cloud {
+		// composed like cmd/gostatsd does: the cache is the server's CachedInstances and one of its runnables. Refresh,
+		// TTL and idle periods are short, so that eviction ticks overlap ingestion from many senders.
+		ci := cloudprovider.NewCachedCloudProvider(logrus.StandardLogger(), rate.NewLimiter(rate.Inf, 1), &scriptedCloud{batch: 1 + sc.Index%16}, gostatsd.CacheOptions{
+			CacheRefreshPeriod: 2 * time.Millisecond, CacheEvictAfterIdlePeriod: 7 * time.Millisecond, CacheTTL: 4 * time.Millisecond, CacheNegativeTTL: 4 * time.Millisecond,
+		})
+		srv.CachedInstances = ci
+		srv.Runnables = append(srv.Runnables, ci.Run)
+	}
+	conn := &srvConn{ch: make(chan srvPkt), closed: make(chan struct{})}
+	sender := func(i int) net.Addr {
+		if !sc.Cloud {
+			return fakeAddr
+		}
+		return &net.UDPAddr{IP: net.IPv4(10, 9, byte(i/200), byte(1+i%200)), Port: 8125}
+	}
 	ctx, cancel := context.WithCancel(context.Background())
 	done := make(chan struct{})
 	go func() {
@@ -237,13 +310,39 @@ func runServerScript(r *mon.Run, sc *srvConfig, steps []srvStep, second bool) (s
 	}
 	var events []string
 	lines := 0
+	// with a cloud provider: a second stream of datagrams from a rotating pool of senders, so that at every refresh tick
+	// some entries are idle (evicted), some expired (looked up again) and some in use by the parsers
+	var churned atomic.Int64
+	stopChurn := make(chan struct{})
+	churnDone := make(chan struct{})
+	go func() {
+		defer close(churnDone)
+		if !sc.Cloud {
+			return
+		}
+		for j := 0; j < 4000; j++ {
+			burst := j / 24
+			ip := 100 + (burst*8+j%8)%64
+			select {
+			case conn.ch <- srvPkt{msg: []byte("verif.churn:1|c"), addr: sender(ip)}:
+				churned.Add(1)
+			case <-stopChurn:
+				return
+			case <-conn.closed:
+				return
+			}
+		}
+	}()
+	stopOnce := sync.Once{}
+	halt := func() { stopOnce.Do(func() { close(stopChurn) }) }
+	defer halt()
 	for i, st := range steps {
 		switch {
 		case st.http == nil: // a datagram (possibly of zero bytes)
 			r.Case("phase=server idx=%d step=%d%s udp %q cfg=%+v", sc.Index, i, tag, st.udp[:min(len(st.udp), 600)], *sc)
 			t := time.NewTimer(serverWatchdog)
 			select {
-			case conn.ch <- st.udp:
+			case conn.ch <- srvPkt{msg: st.udp, addr: sender(i % 40)}:
 				t.Stop()
 			case <-t.C:
 				return fmt.Sprintf("datagram-not-read(step %d)", i)
@@ -289,6 +388,10 @@ func runServerScript(r *mon.Run, sc *srvConfig, steps []srvStep, second bool) (s
 			r.Event("server_sentinels", 1)
 		}
 	}
+	halt()
+	<-churnDone
+	lines += int(churned.Load())
+	r.Event("server_cloud_churn_datagrams", int(churned.Load()))
 	// every datagram is accounted: the server's own parser.* gauges (METRICS.md), as flushed to the backends, add up to
 	// the lines that were sent. This also means that no parser goroutine is still working when the server is stopped.
 	if !mon.WaitUntil(serverWatchdog, func() bool {
@@ -329,7 +432,7 @@ func phaseServer(r *mon.Run, only int) {
 		}
 		rng := r.RandGlobal(fmt.Sprintf("server-%d", k))
 		sc := &srvConfig{Index: k, Readers: 1 + rng.Intn(2), Parsers: 1 + rng.Intn(4), Workers: 1 + rng.Intn(3), Queue: []int{1, 16, 1000}[rng.Intn(3)],
-			MaxEvents: []int{1, 1, 2, 3, 5, 1024}[rng.Intn(6)], Backends: 1 + rng.Intn(3), Namespace: []string{"", "ns"}[rng.Intn(2)]}
+			MaxEvents: []int{1, 1, 2, 3, 5, 1024}[rng.Intn(6)], Backends: 1 + rng.Intn(3), Namespace: []string{"", "ns"}[rng.Intn(2)], Cloud: k%2 == 1}
 		steps := genServerScript(rng, k)
 		stage := runServerScript(r, sc, steps, false)
 		if stage != "" {
@@ -349,7 +452,7 @@ func phaseServer(r *mon.Run, only int) {
 		}
 		r.Eval(1)
 		r.Event("server_configurations", 1)
-		r.Nontrivial(fmt.Sprintf("server|p%d|b%d|ev%s|q%d|ns=%v", sc.Parsers, sc.Backends, map[bool]string{true: "<backends", false: ">=backends"}[sc.MaxEvents < sc.Backends], sc.Queue, sc.Namespace != ""))
+		r.Nontrivial(fmt.Sprintf("server|cloud=%v|p%d|b%d|ev%s|q%d|ns=%v", sc.Cloud, sc.Parsers, sc.Backends, map[bool]string{true: "<backends", false: ">=backends"}[sc.MaxEvents < sc.Backends], sc.Queue, sc.Namespace != ""))
 		if r.WantSample() && k%5 == 1 {
 			r.Sample(map[string]interface{}{"phase": "server", "configuration": sc, "steps": len(steps)})
 		}
